@@ -275,6 +275,50 @@ def separable_history(ctx, rng, nops, script=None):
     return hist, problems
 
 
+def allsky_history(ctx, rng, script):
+    """an all-sky (plate-carree style, 1 deg / px, weakly distorted: no analytic inverse) WCS: the fitted starting guess of the
+    iterative inverse is valid only within 90 deg of the box centre it was fitted for, so a guess left over from an earlier state
+    shows at far points.  script = list of 'box A' | 'box B' | 'box none' | 'shift' | 'query'"""
+    import astropy.units as u
+    from astropy import coordinates as coord
+    from astropy.modeling import models
+    from gwcs import wcs, coordinate_frames as cf
+    dx = models.Polynomial2D(2, c0_0=0.0, c1_0=1.0, c0_1=0.0, c2_0=1e-6)
+    dy = models.Polynomial2D(2, c0_0=0.0, c1_0=0.0, c0_1=1.0, c0_2=1e-6)
+    tr = models.Mapping((0, 1, 0, 1)) | (dx & dy) | (models.Shift(180.0) & models.Shift(0.0))
+    w = wcs.WCS([(cf.Frame2D(name="detector", unit=(u.pix, u.pix)), tr),
+                 (cf.CelestialFrame(name="world", reference_frame=coord.ICRS(), unit=(u.deg, u.deg)), None)])
+    lon, lat = np.array([181.0, 300.0, 60.0, 200.0]), np.array([2.0, 10.0, -30.0, 5.0])
+    hist, problems = [], []
+    for e in script:
+        if e == "box A":
+            w.bounding_box = ((-30.0, 30.0), (-30.0, 30.0))
+        elif e == "box B":
+            w.bounding_box = ((100.0, 140.0), (-20.0, 20.0))
+        elif e == "box none":
+            w.bounding_box = None
+        elif e == "shift":
+            w.insert_transform("world", models.Shift(150.0) & models.Shift(0.0), after=False)
+        hist.append(e)
+        t = twin_of(w)
+        for name, fn in (("numerical_inverse", lambda o: o.numerical_inverse(lon, lat, quiet=True)), ("invert", lambda o: o.invert(lon, lat)),
+                         ("in_image", lambda o: o.in_image(lon, lat))):
+            res = []
+            for o in (w, t):
+                try:
+                    with np.errstate(all="ignore"):
+                        res.append(("val", np.asarray(fn(o), dtype=float)))
+                except Exception as ex:  # noqa
+                    res.append(("err", type(ex).__name__))
+            (ka, a), (kb, b) = res
+            same = ka == kb and (a == b if ka == "err" else (a.shape == b.shape and np.allclose(a, b, rtol=0, atol=1e-4, equal_nan=True)))
+            if not same:
+                problems.append((f"all-sky WCS after {hist}: {name} at lon {lon.tolist()}, lat {lat.tolist()} gives "
+                                 f"{a.tolist() if ka == 'val' else a} but a freshly built twin gives {b.tolist() if kb == 'val' else b}", list(hist)))
+                return hist, problems
+    return hist, problems
+
+
 def unit_history(ctx, rng, nq):
     """a unit-carrying WCS whose bounding box is given as Quantities: every query is compared with a freshly built twin and the stored
     box (types included: repr) must be what it was before the query"""
@@ -453,6 +497,14 @@ def run(ctx):
         hist, problems, nontriv = run_history(ctx, rng, rng.randint(6, 14))
         ctx.case(key=tuple(hist), nontrivial=nontriv, kind=f"len{len(hist)}", sample={"history": hist[:8]})
         allprob += [(p[0], p[1], None) for p in problems[:1]]
+    AS = ["box A", "box B", "box none", "shift"]
+    for e1 in AS:               # all-sky family: every ordered pair and triple of box / pipeline edits, queried after each
+        for e2 in AS:
+            for e3 in ([None] if ctx.quick else [None] + AS):
+                scr = [e1, e2] + ([e3] if e3 else [])
+                hist, problems = allsky_history(ctx, rng, scr)
+                ctx.case(key=("allsky",) + tuple(scr), nontrivial=True, kind="all-sky", sample={"history": hist})
+                allprob += [(p[0], p[1], None) for p in problems[:1]]
     for e1 in SEP_EDITS:        # every ordered pair of edits, from a WCS whose derived answers were all asked for before
         for e2 in SEP_EDITS:
             hist, problems = separable_history(ctx, rng, 2, script=[e1, e2])
